@@ -129,3 +129,12 @@ MUTANTS += [
     dict(property='C15', name='grid given as a list: horizon is the first grid time', file=SIMF, old="            else:\n                finalT = t[-1:]\n                timePoint = True\n        elif isinstance(t, np.ndarray):", new="            else:\n                finalT = t[:1]\n                timePoint = True\n        elif isinstance(t, np.ndarray):"),
     dict(property='C15', name='exact gridded states interpolated instead of extracted', file=SIMF, old="                if exact:\n                    x = self._extractObservationAtTime(simX, simT, t)", new="                if not exact:\n                    x = self._extractObservationAtTime(simX, simT, t)"),
 ]
+TRF = 'pygom/model/transition.py'
+MUTANTS += [
+    dict(property='C12', name='add_transition rebuilds the process without its magnitude (original defect)', file=BASEF, old="                                 transition_type=\"T\",\n                                 magnitude=transition._magnitude)", new="                                 transition_type=\"T\")"),
+    dict(property='C12', name='add_birth_death(D) rebuilds the process without its magnitude', file=BASEF, old="                trans_death=Transition(origin=birth_death.origin, transition_type=\"D\",\n                                       magnitude=birth_death._magnitude)", new="                trans_death=Transition(origin=birth_death.origin, transition_type=\"D\")"),
+    dict(property='C12', name="add_event(Transition) clears the caller's equation (original defect)", file=BASEF, old="            derived_event=Event(transition_list=[event])\n", new="            derived_event=Event(transition_list=[event])\n            event._setEquation(None)\n            derived_event.transition_list[0]._equation=None\n"),
+    dict(property='C12', name='Event with the rate on one member of several leaves rate unset (original defect)', file=TRF, old="            elif n_eq==1:\n                self.rate=member_rate", new="            elif n_eq==1:\n                self.rate=rate"),
+    dict(property='C12', name='transition_list setter adds every other item', file=BASEF, old="            for t in transition_list:\n                self.add_transition(t)", new="            for t in transition_list[::2]:\n                self.add_transition(t)"),
+    dict(property='C12', name='Event takes the FIRST member equation when several members have one', file=TRF, old="            if n_eq>1:\n                raise InputStateError(\"Zero or one equations needed, but \", n_eq, \" provided\")", new="            if n_eq>2:\n                raise InputStateError(\"Zero or one equations needed, but \", n_eq, \" provided\")"),
+]
